@@ -49,7 +49,10 @@ NumEntries == {AnyE, One, UT("utlt", Two), UT("utle", Two), UT("utgt", Two), UT(
                EL(<<One, Three>>), EL(<<UT("utlt", Two), UT("utgt", Two)>>), EL(<<One, Rg(Two, FALSE, Three, TRUE)>>),
                NotL(<<Two>>), NotL(<<One, UT("utgt", Two)>>), NotL(<<Rg(One, TRUE, Two, TRUE)>>),
                NotL(<<UT("utlt", Two)>>), NotL(<<UT("utle", Two)>>), NotL(<<UT("utgt", Two)>>), NotL(<<UT("utge", Two)>>),
-               NotL(<<UT("utlt", Two), UT("utge", Three)>>), EL(<<UT("utle", One), UT("utge", Three)>>)}
+               NotL(<<UT("utlt", Two), UT("utge", Three)>>), EL(<<UT("utle", One), UT("utge", Three)>>),
+               \* intervals whose end points coincide (closed: exactly that value; otherwise empty) or descend (empty)
+               Rg(Two, TRUE, Two, TRUE), Rg(Two, TRUE, Two, FALSE), Rg(Two, FALSE, Two, TRUE), Rg(Two, FALSE, Two, FALSE), Rg(Three, TRUE, One, TRUE),
+               EL(<<One, Rg(Two, TRUE, Two, TRUE)>>), NotL(<<Rg(Two, TRUE, Two, TRUE)>>), NotL(<<Rg(Three, TRUE, One, TRUE)>>)}
 StrEntries == {AnyE, S("a", <<97>>), EL(<<S("a", <<97>>), S("b", <<98>>)>>), NotL(<<S("a", <<97>>)>>), UT("utgt", S("a", <<97>>)), Rg(S("a", <<97>>), TRUE, S("b", <<98>>), FALSE)}
 Match == {Table("MATCH", "U", <<In("x", "number", NoAllowed)>>, <<Out("", <<>>, None)>>, <<Rule(<<e>>, <<O10>>)>>,
                 <<<<VN(1)>>, <<VN(2)>>, <<VN(3)>>, <<[k |-> "num", m |-> 25, e |-> 0 - 1]>>, <<VNull>>>>) : e \in NumEntries}
